@@ -9,6 +9,7 @@ from __future__ import annotations
 import errno
 import hashlib
 import logging
+import gc
 import os
 import shutil
 from typing import Any, Optional
@@ -950,6 +951,11 @@ def _execute(sc: dict, ch: Choices, storage_dir: Optional[str], storage_obj=None
     serial_like = sim is None
 
     def ev2(*e):
+        if e[0] == 'complete':
+            # cyclic garbage (a handle abandoned by an exception, kept alive by its traceback) is collected at
+            # fixed points of the run, not whenever the collector happens to start: a finaliser that closes a
+            # file is a recorded, fault-injectable event (the young generations are enough: such garbage is recent)
+            gc.collect(1)
         if e[0] == 'submit' and e[1] in out.keys:
             ctl.submitted_keys.add(out.keys[e[1]])
         # S0/S1: close the save window when the coordinator sees the completion
@@ -989,10 +995,19 @@ def _execute(sc: dict, ch: Choices, storage_dir: Optional[str], storage_obj=None
                 del rec.events[:]
                 rec.ev('prelude-done', prelude.get('max_workers'))
                 rec.fired('prelude-run')
+        helper_stop = None
+        if sc.get('caller_thread'):
+            # the caller is not single-threaded: an idle helper thread lives while run_tasks is called
+            import threading as _th
+            helper_stop = _th.Event()
+            _th.Thread(target=helper_stop.wait, name='simlab-caller-helper', daemon=True).start()
+            rec.fired('caller-has-helper-thread')
         if sim is not None:
             rec.ev('clock', round(sim.clock, 3))      # virtual time at which the observed run_tasks call begins
         if need_lines:
             linemon.start(handler, cp_handler if (ip is not None or count_lines) else None)
+        gc_was_enabled = gc.isenabled()
+        gc.disable()
         rec.in_run = True
         try:
             if out.kind == 'abort':
@@ -1024,6 +1039,10 @@ def _execute(sc: dict, ch: Choices, storage_dir: Optional[str], storage_obj=None
             out.exc_obj = ex
         finally:
             rec.in_run = False
+            if gc_was_enabled:
+                gc.enable()
+            if helper_stop is not None:
+                helper_stop.set()
             if need_lines:
                 linemon.stop()
         rec.ev('run_tasks-left', out.kind, out.exc['type'] if out.exc else None)
